@@ -6,7 +6,10 @@ LENS = 'cat'
 TRACE_MODULE = 'Trace_IggyCatalogue'
 FAMILIES = {'C05': ['streams', 'topics', 'groups', 'seeded', 'users'], 'C06': ['streams', 'topics', 'groups', 'seeded', 'users'],
             'C19': ['topics', 'users'],
-            'C13': ['streams', 'topics', 'users']}
+            'C13': ['streams', 'topics', 'users'],
+            # C08 "assigned to exactly one CURRENT member": memberships across several topics and streams (joins, leaves, dropped
+            # connections, deletions) are a relation of the catalogue; the group lens itself works on one topic
+            'C08': ['groups', 'seeded']}
 
 BASE = dict(SIds='{0}', SNames='{"sa"}', TIds='{0}', TNames='{"ta"}', GIds='{0}', GNames='{"ga"}', UNames='{"alice"}',
             Clients='{1}', MaxId=3, Seeded='FALSE')
@@ -152,6 +155,8 @@ def attribute(prop, scn, events_bad):
     steps = scn['steps']
     if prop in ('C19', 'C13'):
         return [(i, ev, lab) for i, (ev, labels) in sorted(events_bad.items()) for lab in labels]
+    if prop == 'C08':
+        return [(i, ev, lab) for i, (ev, labels) in sorted(events_bad.items()) for lab in labels if lab[0] in ('CAT.members',) or lab[0].startswith('X.')]
     for i, (ev, labels) in sorted(events_bad.items()):
         before = events_bad.get(i - 1, (None, []))[1]
         for lab in labels:
@@ -176,6 +181,8 @@ def nontrivial(prop, scn, evs):
     mixed = any(s['id'] == 0 for s in creates) and any(s['id'] != 0 for s in creates)
     if prop == 'C13':
         return scn['cfg'].get('transport') == 'http' or len(ops) >= 4
+    if prop == 'C08':
+        return any(o in ops for o in ('join',)) and any(o in ops for o in ('disconnect', 'leave', 'delete_topic', 'delete_stream', 'delete_group'))
     if prop == 'C19':
         return 'restart' in ops and any(o.startswith('create_') for o in ops)
     if prop == 'C05':
@@ -187,6 +194,7 @@ RULES = {
     'C06': 'scenario contains a refused (invalid) command or a delete',
     'C19': 'encrypted journal: creates followed by a restart (the journal is decrypted and replayed)',
     'C13': 'catalogue scenario over HTTP/JSON, or of >= 4 commands over TCP, with seeded boundary-length names',
+    'C08': 'scenario with a join and a leave / dropped connection / deletion (memberships over several topics)',
 }
 ASSUMPTIONS = ['server-chosen ids are bound from the response and only required to be free in their scope',
                'names are seeded strings of boundary lengths 1..255, never all digits',
